@@ -12,6 +12,12 @@
 //       stop_at   1: stop() as soon as every retire() holds its queue ticket
 //                    (the last calls may still be blocked on the full queue)
 //
+// Side channels (guide rule 11): reclaimers reach the collector only through
+// retire(); "retire returned" and "region closed" are published to thread 0 by
+// release stores that follow the API call, and thread 0 only counts what it
+// acquired. The plain `open` flag of a region is set after lock() returned
+// (which ends in a seq_cst fence) and cleared before unlock() is called.
+//
 // Violation classes: duplicate, invented, early-reclaim, lost,
 // not-reclaimed-at-stop (collector left with tasks that an open region still
 // protected — reported separately from `lost`, see run()).
